@@ -172,6 +172,35 @@ func RandSchema(r *rand.Rand, n int, d float64, flags bool, after bool) (am.S, a
 	}
 }
 
+// DagSchema: n states with After / Require demands that only point "backwards"
+// in a hidden random order, so the combined demand graph is acyclic and every
+// handler-order obligation of C05 is claimed. Names are shuffled so that the
+// index order says nothing about the demanded order.
+func DagSchema(r *rand.Rand, n int, p float64) (am.S, am.Schema) {
+	names := am.S{}
+	for i := 0; i < n; i++ {
+		names = append(names, string(rune('A'+i)))
+	}
+	order := r.Perm(n) // order[k] = index of the k-th state of the hidden order
+	sch := am.Schema{}
+	for k := 0; k < n; k++ {
+		st := am.State{}
+		for j := 0; j < k; j++ {
+			x := r.Float64()
+			if x < p {
+				st.After = append(st.After, names[order[j]])
+			} else if x < p*1.6 {
+				st.Require = append(st.Require, names[order[j]])
+			}
+		}
+		if r.Float64() < 0.15 {
+			st.Multi = true
+		}
+		sch[names[order[k]]] = st
+	}
+	return names, sch
+}
+
 // ChainSchema: an Add chain A->B->C->... of the given depth plus noise.
 func ChainSchema(r *rand.Rand, depth int) (am.S, am.Schema) {
 	names := am.S{}
